@@ -7,6 +7,8 @@ import (
 	"sort"
 	"strings"
 	"testing"
+	"testing/synctest"
+	"time"
 
 	"github.com/named-data/ndnd/fw/core"
 	"github.com/named-data/ndnd/fw/face"
@@ -19,12 +21,14 @@ import (
 )
 
 type Op struct {
-	Kind   string `json:"k"` // add | rm | cleanup | facedown
+	Kind   string `json:"k"` // add | rm | cleanup | facedown | wait
 	Name   string `json:"n,omitempty"`
 	Face   uint64 `json:"f"`
 	Origin uint64 `json:"o,omitempty"`
 	Cost   uint64 `json:"c,omitempty"`
 	Flags  uint64 `json:"fl,omitempty"`
+	Exp    *int64 `json:"exp,omitempty"` // add: ExpirationPeriod in ms (nil: the route does not expire)
+	D      int64  `json:"d,omitempty"`   // wait: virtual milliseconds
 }
 
 type Case struct {
@@ -85,23 +89,66 @@ type routeKey struct {
 
 type routeVal struct{ cost, flags uint64 }
 
+// model: the routes the user of the RIB has registered and not removed. A route registered with an
+// expiration period is certainly registered until the period is over; from then on the statement leaves
+// open whether the table still holds it (this RIB stores the period and never acts on it; NFD's removes
+// the route), so the reference looks at the RIB listing and adopts what it sees (reconcile). A route
+// registered - or registered again - without a period never expires.
 type model struct {
 	routes map[routeKey]routeVal
+	expAt  map[routeKey]int64 // virtual ms at which the period of a route is over (absent: never)
+	now    int64
+	gone   int // routes seen to have left the table after their period
 }
 
-func newModel() *model { return &model{routes: map[routeKey]routeVal{}} }
+func newModel() *model { return &model{routes: map[routeKey]routeVal{}, expAt: map[routeKey]int64{}} }
 
 func (m *model) apply(op Op) {
 	switch op.Kind {
 	case "add":
-		m.routes[routeKey{op.Name, op.Face, op.Origin}] = routeVal{op.Cost, op.Flags}
+		k := routeKey{op.Name, op.Face, op.Origin}
+		m.routes[k] = routeVal{op.Cost, op.Flags}
+		delete(m.expAt, k)
+		if op.Exp != nil {
+			m.expAt[k] = m.now + *op.Exp
+		}
 	case "rm":
 		delete(m.routes, routeKey{op.Name, op.Face, op.Origin})
+		delete(m.expAt, routeKey{op.Name, op.Face, op.Origin})
 	case "cleanup", "facedown":
 		for k := range m.routes {
 			if k.face == op.Face {
 				delete(m.routes, k)
+				delete(m.expAt, k)
 			}
+		}
+	case "wait":
+		m.now += op.D
+	}
+}
+
+// reconcile drops from the reference the routes whose period is over and which the RIB no longer lists.
+func (m *model) reconcile() {
+	var due []routeKey
+	for k, at := range m.expAt {
+		if m.now >= at {
+			due = append(due, k)
+		}
+	}
+	if len(due) == 0 {
+		return
+	}
+	listed := map[routeKey]bool{}
+	for _, e := range table.Rib.GetAllEntries() {
+		for _, r := range e.GetRoutes() {
+			listed[routeKey{e.Name.String(), r.FaceID, r.Origin}] = true
+		}
+	}
+	for _, k := range due {
+		if !listed[k] {
+			delete(m.routes, k)
+			delete(m.expAt, k)
+			m.gone++
 		}
 	}
 }
@@ -169,13 +216,15 @@ func (m *model) fib() map[string]map[uint64]uint64 {
 
 // ------------------------------------------------------------------ generator
 
-var alphabet = []string{"a", "b", "c"}
+// "32=a" / "32=b": components with the value bytes of "a" / "b" and another type (siblings that
+// differ in nothing but the component type)
+var alphabet = []string{"a", "b", "c", "32=a", "32=b"}
 
 func genName(t *rapid.T, label string) string {
 	d := rapid.SampledFrom([]int{0, 1, 1, 2, 2, 3, 3, 4}).Draw(t, label+"depth")
 	c := make([]string, d)
 	for i := range c {
-		c[i] = alphabet[rapid.SampledFrom([]int{0, 0, 0, 1, 1, 2}).Draw(t, label+"c")]
+		c[i] = alphabet[rapid.SampledFrom([]int{0, 0, 0, 0, 1, 1, 1, 2, 2, 3, 4}).Draw(t, label+"c")]
 	}
 	return join(c)
 }
@@ -190,11 +239,13 @@ type rawOp struct {
 	Face, Origin uint64
 	Cost, Flags  uint64
 	RmEx         bool
+	Exp          int64 // < 0: none
+	D            int64
 }
 
 func genRaw(t *rapid.T) rawOp {
 	return rawOp{
-		Kind:   rapid.SampledFrom([]string{"add", "add", "add", "add", "rm", "rm", "cleanup", "facedown"}).Draw(t, "kind"),
+		Kind:   rapid.SampledFrom([]string{"add", "add", "add", "add", "add", "add", "add", "add", "rm", "rm", "rm", "rm", "cleanup", "cleanup", "facedown", "facedown", "wait", "wait"}).Draw(t, "kind"),
 		Lit:    genName(t, "n"),
 		How:    rapid.IntRange(0, 9).Draw(t, "how"),
 		Ref:    rapid.IntRange(0, 1000).Draw(t, "ref"),
@@ -205,6 +256,8 @@ func genRaw(t *rapid.T) rawOp {
 		Cost:   rapid.SampledFrom([]uint64{0, 1, 2, 5, 10, 1 << 33}).Draw(t, "cost"),
 		Flags:  uint64(rapid.IntRange(0, 3).Draw(t, "flags")),
 		RmEx:   rapid.IntRange(0, 4).Draw(t, "rmex") > 0,
+		Exp:    rapid.SampledFrom([]int64{-1, -1, -1, -1, -1, -1, 0, 50, 1000, 60000}).Draw(t, "exp"),
+		D:      rapid.SampledFrom([]int64{1, 49, 50, 51, 999, 1000, 1001, 5000, 59000, 70000}).Draw(t, "wait"),
 	}
 }
 
@@ -241,6 +294,10 @@ func genCase(t *rapid.T) Case {
 		switch r.Kind {
 		case "add":
 			op = Op{Kind: "add", Name: pick(r), Face: r.Face, Origin: r.Origin, Cost: r.Cost, Flags: r.Flags}
+			if r.Exp >= 0 {
+				e := r.Exp
+				op.Exp = &e
+			}
 		case "rm":
 			keys := make([]routeKey, 0, len(m.routes))
 			for k := range m.routes {
@@ -261,6 +318,8 @@ func genCase(t *rapid.T) Case {
 			} else {
 				op = Op{Kind: "rm", Name: pick(r), Face: r.Face, Origin: r.Origin}
 			}
+		case "wait":
+			op = Op{Kind: "wait", D: r.D}
 		default:
 			op = Op{Kind: r.Kind, Face: r.Face}
 		}
@@ -323,7 +382,15 @@ func setup(c Case) {
 func applyOp(op Op) {
 	switch op.Kind {
 	case "add":
-		table.Rib.AddEncRoute(mkName(op.Name), &table.Route{FaceID: op.Face, Origin: op.Origin, Cost: op.Cost, Flags: op.Flags})
+		r := &table.Route{FaceID: op.Face, Origin: op.Origin, Cost: op.Cost, Flags: op.Flags}
+		if op.Exp != nil {
+			d := time.Duration(*op.Exp) * time.Millisecond
+			r.ExpirationPeriod = &d
+		}
+		table.Rib.AddEncRoute(mkName(op.Name), r)
+	case "wait":
+		time.Sleep(time.Duration(op.D) * time.Millisecond)
+		synctest.Wait()
 	case "rm":
 		table.Rib.RemoveRouteEnc(mkName(op.Name), op.Face, op.Origin)
 	case "cleanup":
@@ -463,21 +530,50 @@ func classify(c Case) flags {
 	return f
 }
 
-func execC06(c Case) (res evid.Result) {
-	defer func() {
-		if r := recover(); r != nil {
-			res.Err = fmt.Errorf("panic: %v", r)
-		}
-	}()
+// bubble runs f under virtual time (route expiry, if the table implements it, is a matter of timers).
+func bubble(t *testing.T, f func() evid.Result) (res evid.Result) {
+	synctest.Test(t, func(*testing.T) {
+		defer func() {
+			if r := recover(); r != nil {
+				res.Err = fmt.Errorf("panic: %v", r)
+			}
+		}()
+		res = f()
+	})
+	return res
+}
+
+func execC06(t *testing.T) func(Case) evid.Result {
+	return func(c Case) evid.Result { return bubble(t, func() evid.Result { return runC06(c) }) }
+}
+
+func runC06(c Case) (res evid.Result) {
 	setup(c)
 	m := newModel()
 	names := universe(c)
+	periods, lapsed := false, false
 	for i, op := range c.Ops {
 		m.apply(op)
 		applyOp(op)
+		for _, at := range m.expAt {
+			periods = true
+			if m.now >= at {
+				lapsed = true
+			}
+		}
+		m.reconcile()
 		if err := checkState(m, names, i); err != nil {
 			return evid.Result{Err: err}
 		}
+	}
+	if periods {
+		res.Classes = append(res.Classes, "route-with-expiration-period")
+	}
+	if lapsed {
+		res.Classes = append(res.Classes, "expiration-period-over-while-registered")
+	}
+	if m.gone > 0 {
+		res.Classes = append(res.Classes, "expired-route-left-the-table")
 	}
 	f := classify(c)
 	res.NonTrivial = f.gap && f.capture && f.removal
@@ -494,13 +590,13 @@ func execC06(c Case) (res evid.Result) {
 	return res
 }
 
-const ruleC06 = "rapid histories (<=40 ops) of AddEncRoute (re-registration with changed cost/flags included), RemoveRouteEnc, Rib.CleanUpFace and face.FaceTable.Remove over nested prefixes from {a,b,c}^0..4 (gap chains, siblings, root), faces 1..4, origins {0,65,128,255}, all four flag combinations, on the name-tree or hash-table FIB; after every op FindNextHopsEnc over the universe, GetAllFIBEntries and Rib.GetAllEntries are compared with a from-scratch flattening of the harness's own route multiset. Non-trivial: history with a gap chain, >=1 capture flag and >=1 effective removal or face clean-up; distinct by case hash"
+const ruleC06 = "rapid histories (<=40 ops) of AddEncRoute (re-registration with changed cost/flags included), RemoveRouteEnc, Rib.CleanUpFace and face.FaceTable.Remove over nested prefixes from {a,b,c,32=a,32=b}^0..4 (gap chains, siblings - also siblings differing only in the component type -, root), optional ExpirationPeriod (0, 50 ms, 1 s, 60 s) and virtual-time waits around those periods (a route whose period is over may stay or go: the reference adopts what the RIB lists; one without a period never goes), faces 1..4, origins {0,65,128,255}, all four flag combinations, on the name-tree or hash-table FIB; after every op FindNextHopsEnc over the universe, GetAllFIBEntries and Rib.GetAllEntries are compared with a from-scratch flattening of the harness's own route multiset. Non-trivial: history with a gap chain, >=1 capture flag and >=1 effective removal or face clean-up; distinct by case hash"
 
 func TestC06Rib(t *testing.T) {
 	rec := evid.New("C06", "TestC06Rib", ruleC06)
-	evid.Check(t, rec, genCase, execC06)
+	evid.Check(t, rec, genCase, execC06(t))
 }
 
-func TestC06RibReplay(t *testing.T) { evid.Replay(t, "TestC06Rib", execC06) }
+func TestC06RibReplay(t *testing.T) { evid.Replay(t, "TestC06Rib", execC06(t)) }
 
-func TestC06RibRegress(t *testing.T) { evid.Regress(t, "C06", "TestC06Rib", execC06) }
+func TestC06RibRegress(t *testing.T) { evid.Regress(t, "C06", "TestC06Rib", execC06(t)) }
